@@ -153,38 +153,78 @@ def r2(repo, run):
 
 
 def r3r4(repo, run):
+    """filter_nodes / map_nodes evaluated on a concrete container (finite-domain evaluator; the condition / map function and the
+    child-map mutators are recording stand-ins): the children are all visited before the first structural change, and deferred
+    removals are applied from the highest position down (list indices do not shift under the remaining removals)"""
     fi = repo.func('ComposedNode.ayns.filter_nodes')
-    loops = [s for s in fi.node.body if isinstance(s, ast.For)]
-    dels = [lp for lp in loops if norm(lp.iter) != 'self.ayns.named_children()' and any(is_method_call(c, recv='self', member='remove_child', ayns=True) for c in calls_in(lp))]
-    if len(dels) != 1:
-        raise AnalysisError('filter_nodes: deferred deletion loop not recognised')
-    lp = dels[0]
-    main = [l for l in loops if norm(l.iter) == 'self.ayns.named_children()']
-    if not main:
-        raise AnalysisError('filter_nodes: child loop not recognised')
-    coll = None
-    for c in calls_in(main[0]):
-        if isinstance(c.func, ast.Attribute) and c.func.attr == 'append' and c.args and norm(c.args[0]) == norm(main[0].target.elts[0]):
-            coll = norm(c.func.value)
-    if coll is None:
-        raise AnalysisError('filter_nodes: collection of names to delete not recognised')
-    if norm(lp.iter) == 'reversed(%s)' % coll:
-        run.ok('C15.R3', (fi.file, lp.lineno, fi.qualname), norm(lp)[:100], 'collected in iteration order, removed in reverse')
-    elif norm(lp.iter) == coll:
-        run.violation('C15.R3', fi, norm(lp)[:100], 'deferred deletions are applied in forward order: removing a list element shifts the indices of the remaining names to delete (wrong elements removed)', node=lp)
+    kids = {i: node_obj('c%d' % i, 'ConfigNode') for i in range(5)}
+    drop = {1, 2, 4}
+    for cls in ('ConfigList', 'ConfigDict'):
+        me = node_obj('me', cls, _children=dict(kids))
+        log = []
+
+        def cond(path, child, log=log):
+            log.append(('visit', child.name))
+            return int(child.name[1:]) not in drop
+        cond._fde_ok = True
+
+        def stub(name, recv, args, kwargs, log=log, me=me):
+            if name == 'named_children':
+                return list(me.f['_children'].items())
+            if name == 'get_list_path':
+                return ['root']
+            log.append((name, args[0] if args else None))
+            if name == 'remove_child':
+                return me.f['_children'].pop(args[0], None)
+            return recv
+        f = FDE(repo, stubs={'named_children', 'remove_child', 'set_child', 'get_list_path'}, stub=stub)
+        r = fde_guard(lambda: f.call(fi, me, cond))
+        if r.raised:
+            raise AnalysisError('filter_nodes: not evaluable on a concrete container (%s)' % r.raised)
+        visits = [i for i, x in enumerate(log) if x[0] == 'visit']
+        removes = [(i, x[1]) for i, x in enumerate(log) if x[0] == 'remove_child']
+        if sorted(k for _, k in removes) != sorted(drop) or len(visits) != len(kids):
+            raise AnalysisError('filter_nodes: removals %s / visits %d do not match the condition (not recognised)' % ([k for _, k in removes], len(visits)))
+        if removes and visits and removes[0][0] < visits[-1]:
+            run.violation('C15.R4', fi, 'filter_nodes on a %s' % cls, 'the child map is mutated while it is being iterated (remove_child(%r) before the last child was visited)' % removes[0][1])
+        else:
+            run.ok('C15.R4', fi, 'filter_nodes on a %s: %d visits, then %d removals' % (cls, len(visits), len(removes)), 'no structural mutation inside the loop; changes applied afterwards')
+        order = [k for _, k in removes]
+        if order == sorted(order, reverse=True):
+            run.ok('C15.R3', fi, 'filter_nodes on a %s removes %s' % (cls, order), 'collected in iteration order, removed in reverse')
+        else:
+            run.violation('C15.R3', fi, 'filter_nodes on a %s removes %s' % (cls, order), 'deferred deletions are applied in forward order: removing a list element shifts the indices of the remaining names to delete (wrong elements removed)')
+    # map_nodes: replacements are applied after the iteration
+    mn = repo.func('ComposedNode.ayns.map_nodes')
+    me = node_obj('me', 'ConfigList', _children=dict(kids))
+    log = []
+
+    def mapper(path, child, log=log):
+        log.append(('visit', child.name))
+        return node_obj('new_' + child.name, 'ConfigNode') if int(child.name[1:]) in drop else child
+    mapper._fde_ok = True
+
+    def stub2(name, recv, args, kwargs, log=log, me=me):
+        if name == 'named_children':
+            return list(me.f['_children'].items())
+        if name == 'get_list_path':
+            return ['root']
+        if name == 'persistent_id':
+            return id(args[0]) if args else id(recv)
+        log.append((name, args[0] if args else None))
+        return recv
+    f = FDE(repo, stubs={'named_children', 'remove_child', 'set_child', 'get_list_path', 'persistent_id'}, stub=stub2)
+    r = fde_guard(lambda: f.call(mn, me, mapper))
+    if r.raised:
+        raise AnalysisError('map_nodes: not evaluable on a concrete container (%s)' % r.raised)
+    visits = [i for i, x in enumerate(log) if x[0] == 'visit']
+    sets = [(i, x[1]) for i, x in enumerate(log) if x[0] == 'set_child']
+    if sorted(k for _, k in sets) != sorted(drop) or len(visits) != len(kids):
+        raise AnalysisError('map_nodes: replacements %s / visits %d not recognised' % ([k for _, k in sets], len(visits)))
+    if sets[0][0] < visits[-1]:
+        run.violation('C15.R4', mn, 'map_nodes on a ConfigList', 'the child map is mutated while it is being iterated (set_child(%r) before the last child was visited)' % sets[0][1])
     else:
-        run.violation('C15.R3', fi, norm(lp)[:100], 'deferred deletions are not applied over reversed(%s)' % coll, node=lp)
-    for q in ('ComposedNode.ayns.filter_nodes', 'ComposedNode.ayns.map_nodes'):
-        f = repo.func(q)
-        for l in [s for s in f.node.body if isinstance(s, ast.For) and norm(s.iter) in ('self.ayns.named_children()', 'self._children.items()')]:
-            muts = [c for c in calls_in(l) if is_method_call(c, recv='self', member=('set_child', 'remove_child', 'rename_child', 'clear'), ayns=True) or
-                    (isinstance(c.func, ast.Attribute) and norm(c.func.value) == 'self._children' and c.func.attr in ('pop', 'clear', 'update', 'setdefault'))]
-            stores = [s for s in ast.walk(l) if isinstance(s, (ast.Assign, ast.Delete)) and any(isinstance(t, ast.Subscript) and norm(t.value) in ('self._children', 'self') for t in (s.targets))]
-            if muts or stores:
-                x = (muts or stores)[0]
-                run.violation('C15.R4', f, norm(x)[:100], 'the child map is mutated while it is being iterated', node=x)
-            else:
-                run.ok('C15.R4', (f.file, l.lineno, f.qualname), 'for ... in %s' % norm(l.iter), 'no structural mutation inside the loop; changes applied afterwards')
+        run.ok('C15.R4', mn, 'map_nodes: %d visits, then %d replacements' % (len(visits), len(sets)), 'no structural mutation inside the loop; changes applied afterwards')
 
 
 def r5(repo, run):
